@@ -199,20 +199,25 @@ PX("C16", "C16_actors", "Abandoned requests have all-or-nothing effect", HDR_ACT
  ("C16_server_ignores_callers", "C16_effect_independent", "server-side steps are enabled and act on topics, subscriptions and attach tasks independently of the client list: whether the caller is still there does not change the effect of its request"),
 ])
 PX("C06", "C06_conc", "Waiting consumers are woken when a message becomes available", HDR_CSUB, "ConcSubP.v", [
- ("C06c_notify_wf", "notify_wf", "small-step model of tokio Notify + actor + consumers at await-point granularity: the Notify state is well formed in every reachable state"),
- ("C06c_token", "C06_no_lost_wakeup_exact", "while the subscription exists and its backlog is non-empty a notification is pending somewhere: the permit, a woken or owing consumer, or a request in the mailbox that will notify"),
+ ("C06c_notify_wf", "notify_wf", "small-step model of tokio Notify + actor + consumers at await-point granularity (ho = true: the code with the wake-up hand-off of fix fd73b54, ho = false: the pinned code): the Notify state is well formed in every reachable state"),
+ ("C06c_token", "C06_no_lost_wakeup_exact", "repaired code, every interleaving, any number of consumers of both kinds, cancellations and timeouts at every suspension point: while the subscription exists and its backlog is non-empty a notification is pending somewhere - the permit, a woken or owing consumer, or a request in the mailbox that will notify"),
  ("C06c_no_lost_wakeup", "C06_no_lost_wakeup", "the same in the five-way form of the property"),
  ("C06c_unreachable", "C06_lost_wakeup_unreachable", "the lost-wake-up state (message queued, a consumer asleep, nothing pending) is unreachable"),
+ ("C06c_quiescent", "C06_quiescent", "when no internal step is enabled and the backlog is non-empty, nobody is parked"),
  ("C06c_cancel_parked", "C06_cancel_parked_ok", "cancelling a sleeping consumer only removes it from the waiters"),
  ("C06c_cancel_woken", "C06_cancel_woken_forwarded", "cancelling a consumer that was woken and has not run forwards the notification to the next waiter (or sets the permit)"),
- ("C06c_quiescent", "C06_quiescent", "when no internal step is enabled and the backlog is non-empty, nobody is parked"),
- ("C06c_old_code_loses", "C06_refuted_cancel_owing", "the pinned code: a consumer cancelled while waiting for room in the full mailbox with the notification consumed leaves a message queued and a sleeper (replayed on the implementation: findings/replays/C06-woken-consumer-dropped.cases)"),
+ ("C06c_old_code_holds_without_bad_drops", "C06_no_lost_wakeup_exact_old", "for the pinned code the invariant holds as long as no consumer is dropped between consuming a notification and queueing its pull"),
+ ("C06c_old_code_loses", "C06_refuted_cancel_owing", "and is lost otherwise: a consumer cancelled while waiting for room in the full mailbox with the notification consumed leaves a message queued and a sleeper, forever (replayed on the implementation: findings/replays/C06-woken-consumer-dropped.cases)"),
  ("C06c_old_code_loses_timeout", "C06_refuted_timeout_owing", "the same loss through the 300 s limit of a unary Pull"),
+ ("C06c_fixed_cancel", "C06_fixed_cancel_owing", "the same schedule on the repaired code: the sleeper is woken and receives the message"),
+ ("C06c_fixed_timeout", "C06_fixed_timeout_owing", "likewise for the timeout"),
  ("C06c_terminates", "internal_terminates", "internal activity (actor turns, consumer steps) always terminates"),
 ])
 PX("C12", "C12_conc", "Deleting a subscription releases the consumers waiting on it", HDR_CSUB, "ConcSubP.v", [
  ("C12c_release", "C12_release", "once the deletion was processed and internal activity has ended, every consumer has finished: streams with NOT_FOUND, blocked Pulls with an error status"),
- ("C12c_no_hang", "C12_no_hang", "no consumer is left waiting after the deletion, whatever the interleaving with its own steps"),
+ ("C12c_no_hang", "C12_no_hang", "after the deletion the number of steps a consumer can still take is bounded (by an explicit bound plus 6 per consumer arriving later: a late arrival that leaves through the deleted branch hands on a surplus wake-up)"),
+ ("C12c_no_hang_closed", "C12_no_hang_closed", "without later arrivals the bound is the explicit one"),
+ ("C12c_hang_bound", "hang_bound_le", "and that bound is linear in the number of consumers"),
  ("C12c_progress", "C12_progress", "a consumer that has not finished after the deletion always has a step to take"),
  ("C12c_bound", "internal_run_bound", "and the number of internal steps is bounded"),
 ])
